@@ -236,6 +236,16 @@ class _ConstInliner(ast.NodeTransformer):
 class _Fold(ast.NodeTransformer):
     """len('<constant>') -> its value"""
 
+    def visit_Subscript(self, node):
+        self.generic_visit(node)
+        # {True: a, False: b}[c]  ->  a if c else b     (a two-entry table keyed by a truth value)
+        d = node.value
+        if isinstance(node.ctx, ast.Load) and isinstance(d, ast.Dict) and len(d.keys) == 2 and all(isinstance(k, ast.Constant) and isinstance(k.value, bool) for k in d.keys) and d.keys[0].value != d.keys[1].value:
+            t = d.values[0] if d.keys[0].value else d.values[1]
+            f = d.values[1] if d.keys[0].value else d.values[0]
+            return ast.fix_missing_locations(ast.copy_location(ast.IfExp(test=node.slice, body=t, orelse=f), node))
+        return node
+
     def visit_Call(self, node):
         self.generic_visit(node)
         if isinstance(node.func, ast.Name) and node.func.id == "len" and len(node.args) == 1 and not node.keywords and isinstance(node.args[0], ast.Constant) and isinstance(node.args[0].value, (str, bytes)):
